@@ -619,7 +619,18 @@ def b_max(ex, st, *args, **kw):
                 best = ite(to_z3(c), x, best) if not isinstance(c, bool) else (x if c else best)
                 bk = ite(to_z3(c), k, bk) if not isinstance(c, bool) else (k if c else bk)
             return best
-        raise Unsupported('max with key over symbolic sequence')
+        # symbolic sequence: first maximiser of the key
+        ln, item = ex.iter_descr(seq, st, kw.get('_node'))
+
+        def keyfn(i):
+            ex.spec_mode += 1
+            try:
+                return ex.call(key, [item(i)], {}, st, None)
+            finally:
+                ex.spec_mode -= 1
+        keys = ArrayVal((ln,), keyfn, 'real')
+        r, _ = _sym_argext(ex, st, keys, lambda x, y: s_lt(x, y), 'max(key)', kw.get('_node'))
+        return item(r)
     if len(args) == 1:
         v = args[0]
         if isinstance(v, (list, tuple)):
